@@ -475,6 +475,12 @@ fn dump_fn<'tcx>(tcx: TyCtxt<'tcx>, ldid: LocalDefId, reachable: bool) -> J {
 	if tcx.is_mir_available(did) {
 		let body = tcx.optimized_mir(did);
 		o.put("mir", mir_j(tcx, ldid, body));
+		// promoted constants (`&CONST_EXPR` lifted out of the body): small bodies of their own, referenced by
+		// constant operands printed as `<path>::promoted[i]`
+		let proms = tcx.promoted_mir(did);
+		if !proms.is_empty() {
+			o.put("promoted", J::Arr(proms.iter().map(|b| mir_j(tcx, ldid, b)).collect()));
+		}
 	}
 	o
 }
